@@ -639,3 +639,9 @@ package fsm
 // height: the list for the working height itself is still being built by the block in progress
 //@ func (*StateMachine).TimeMachine
 //@   callsite RLock requires[pastonly] height < s.height
+
+// ---- C20: a settled liquidity deposit leaves the holding pool ---------------------------------------------------
+// in the distribution pass, every accepted deposit of a locally settled batch is taken out of the holding pool
+// (whatever its pro-rata share rounds to), so the holding pool keeps matching the operations still pending
+//@ func (*StateMachine).handleBatchDeposit
+//@   loop 3 iterensures[moved] accepted[i] && local ==> poolBal(wrap64(chainId + HoldingPoolAddend)) == athead(poolBal(wrap64(chainId + HoldingPoolAddend))) - deposit.Amount
